@@ -10,6 +10,7 @@ import (
 	"github.com/gmrtd/gmrtd/document"
 
 	"verif/internal/e2e"
+	"verif/internal/lz"
 	"verif/internal/perso"
 	"verif/internal/refchip"
 	"verif/internal/refcrypto"
@@ -26,6 +27,7 @@ func init() {
 type session struct {
 	Name string
 	Cfg  perso.Config
+	LZ   string // "" | "cam" | "ca": drive the session randomness into the leading-zero slice of the shared secret
 }
 
 func sessions(thorough bool) []session {
@@ -47,7 +49,7 @@ func sessions(thorough bool) []session {
 				} else {
 					cfg.BAC = true
 				}
-				out = append(out, session{fmt.Sprintf("ca/%s/c%d/pace=%v", cu, cipher, pace), cfg})
+				out = append(out, session{Name: fmt.Sprintf("ca/%s/c%d/pace=%v", cu, cipher, pace), Cfg: cfg})
 			}
 		}
 	}
@@ -56,17 +58,24 @@ func sessions(thorough bool) []session {
 			if !thorough && (pid+cipher)%3 != 0 {
 				continue
 			}
-			out = append(out, session{fmt.Sprintf("cam/%d/c%d", pid, cipher), perso.Config{DGs: []int{2}, PACE: []refchip.PACEProto{{Mapping: 6, Cipher: cipher, ParamID: pid}}}})
+			out = append(out, session{Name: fmt.Sprintf("cam/%d/c%d", pid, cipher), Cfg: perso.Config{DGs: []int{2}, PACE: []refchip.PACEProto{{Mapping: 6, Cipher: cipher, ParamID: pid}}}})
 		}
 	}
 	for _, tr := range []string{"BC", "38CC", "34CC", "36CC", "35CC"} {
-		out = append(out, session{"aa-rsa/" + tr, perso.Config{BAC: true, DGs: []int{2}, AA: &perso.AASpec{RSABits: 2048, Trailer: tr}}})
+		out = append(out, session{Name: "aa-rsa/" + tr, Cfg: perso.Config{BAC: true, DGs: []int{2}, AA: &perso.AASpec{RSABits: 2048, Trailer: tr}}})
 	}
 	for i, cu := range curves {
-		out = append(out, session{"aa-ec/" + cu, perso.Config{BAC: true, DGs: []int{2}, AA: &perso.AASpec{Curve: cu, DER: i%3 == 0, Explicit: i%4 == 1}}})
+		out = append(out, session{Name: "aa-ec/" + cu, Cfg: perso.Config{BAC: true, DGs: []int{2}, AA: &perso.AASpec{Curve: cu, DER: i%3 == 0, Explicit: i%4 == 1}}})
 	}
-	out = append(out, session{"untrusted/ca", perso.Config{BAC: true, DGs: []int{2}, Untrusted: true, CA: []perso.CASpec{{Curve: "P-256", Cipher: 2}}}})
-	out = append(out, session{"ca-not-first-protected-command/aa+ca", perso.Config{BAC: true, DGs: []int{2, 11}, CA: []perso.CASpec{{Curve: "brainpoolP256r1", Cipher: 2}}}})
+	// sessions inside the 1/256 slice where the agreed x-coordinate starts with a zero octet
+	for _, pid := range []int{12, 13, 16, 18} {
+		out = append(out, session{Name: fmt.Sprintf("cam-leading-zero-secret/%d", pid), Cfg: perso.Config{DGs: []int{2}, PACE: []refchip.PACEProto{{Mapping: 6, Cipher: 2 + pid%3, ParamID: pid}}}, LZ: "cam"})
+	}
+	for i, cu := range []string{"P-256", "brainpoolP256r1", "brainpoolP384r1", "P-521"} {
+		out = append(out, session{Name: "ca-leading-zero-secret/" + cu, Cfg: perso.Config{BAC: true, DGs: []int{2}, CA: []perso.CASpec{{Curve: cu, Cipher: 1 + i}}}, LZ: "ca"})
+	}
+	out = append(out, session{Name: "untrusted/ca", Cfg: perso.Config{BAC: true, DGs: []int{2}, Untrusted: true, CA: []perso.CASpec{{Curve: "P-256", Cipher: 2}}}})
+	out = append(out, session{Name: "ca-not-first-protected-command/aa+ca", Cfg: perso.Config{BAC: true, DGs: []int{2, 11}, CA: []perso.CASpec{{Curve: "brainpoolP256r1", Cipher: 2}}}})
 	return out
 }
 
@@ -221,12 +230,51 @@ func run(c *vc.Ctx) {
 			break
 		}
 		p := perso.Build(sess.Cfg)
-		live := e2e.Read(p, e2e.ReadOpts{})
+		ropts := e2e.ReadOpts{}
+		switch sess.LZ {
+		case "cam":
+			pr := sess.Cfg.PACE[0]
+			nl := 16
+			if pr.Cipher >= 3 {
+				nl = 32
+			}
+			cq, tq, ok := lz.PACE(refpki.CurveByName(refchip.StdCurve(pr.ParamID)), nl)
+			if !ok {
+				c.Note("no leading-zero PACE session found for " + sess.Name)
+				continue
+			}
+			p.Chip.Rand.Queue = cq
+			ropts.TermRand = refchip.NewDetRand("terminal-lz")
+			ropts.TermRand.Queue = tq
+		case "ca":
+			tb, ok := lz.CA(p.Chip.CA[0].Key)
+			if !ok {
+				c.Note("no leading-zero CA scalar found for " + sess.Name)
+				continue
+			}
+			ropts.TermRand = refchip.NewDetRand("terminal-lz")
+			ropts.TermRand.Queue = [][]byte{tb}
+		}
+		live := e2e.Read(p, ropts)
+		if sess.LZ != "" && live.Doc != nil {
+			k := p.Chip.Truth.PACELastK
+			if sess.LZ == "ca" {
+				k = p.Chip.Truth.CALastK
+			}
+			if len(k) == 0 || k[0] != 0 {
+				c.HarnessError("session %s did not land in the leading-zero slice (secret %x)", sess.Name, k)
+				continue
+			}
+		}
 		if live.Panic != nil || live.Err != nil || live.Doc == nil {
 			c.Violation(secA, "live-read-failed", fmt.Sprintf("session %s: live read failed: %v %v", sess.Name, live.Panic, live.Err), caseRec{Session: sess.Name}, nil)
 			continue
 		}
 		lv := verdictsOf(live.Doc)
+		if (sess.LZ == "cam" && !lv.CAM) || (sess.LZ == "ca" && !lv.CA) {
+			c.Violation(secA, "live-mechanism-failed-in-leading-zero-slice", fmt.Sprintf("session %s: live verdicts %+v", sess.Name, lv), caseRec{Session: sess.Name}, nil)
+			continue
+		}
 		// the mechanism the configuration is about must have succeeded live (non-vacuity)
 		blob, err := live.Doc.ToCbor()
 		if err != nil {
